@@ -6,6 +6,21 @@ ALL = ["C%02d" % i for i in range(1, 21)]
 
 # id -> dict(level, text, note, technique, design_ref, engine)
 CHECKS = {
+ "C10": dict(level="exploration", engine="gridx",
+   text="Bounded-exhaustive: parameter grids inside the documented/physical ranges x {no prefix, 30 dry, 30 storm steps} x every (rain,PET) word of length 1..T over a 6-letter alphabet through the real GR4J/Sacramento/Simhyd/Surm/RunoffCoefficient objects; per-step output, component-sum and cumulative-budget invariants, store bounds and a no-water-created budget in every reached state; exact closure for GR4J with X2=0, PET=0.",
+   note="Exhaustive over the stated lattice and word length only; Sacramento's unit-hydrograph buffer is not observable and is left out of the stored-water term; GR4J X2>0 imports water by design.",
+   technique="bounded-exhaustive enumeration of all input words over a finite alphabet x parameter grid, invariants checked on every transition of the real model",
+   design_ref="2/C10"),
+ "C15": dict(level="exploration", engine="gridx",
+   text="Every (X1,X2,X3,X4) of a lattice covering each unit-hydrograph length n1=1..4, n2=1..8 x two initial store fillings x every (rain,PET) word of length T over 5 letters is run through the real GR4J and compared step by step (runoff) and at the end (S, R, both UH stores) with an independent implementation of Perrin et al. 2003.",
+   note="Trusts the harness's reference implementation of the published equations (direct convolution, no shared code); lattice values and word length only.",
+   technique="bounded-exhaustive enumeration of input words x parameter lattice against an independent reference model",
+   design_ref="2/C15"),
+ "C16": dict(level="exploration", engine="gridx",
+   text="For each of the ~20 partition/conversion/generation models: full-factorial parameter grid x every word over the product alphabet of input values; the algebraic identity the model names (sum-to-input, identity/sum/mask/linear map with independently recomputed unit factors, total = parts, delivered = generated x ratio, zero driver => zero load, non-negativity) is evaluated on every timestep of the real catalogued model.",
+   note="Exhaustive over the stated lattice only; gully fine/coarse split required only while the activity factor is 1.",
+   technique="bounded-exhaustive enumeration of parameter lattice x input words, identity oracle per step",
+   design_ref="2/C16"),
  "C19": dict(level="model_checking", engine="gridx",
    text="All 146097 states (dates) of the 400-year Gregorian cycle are used as start states of the real DateGenerator and every day->next-day transition is executed and compared with Go's time package; exhaustive for the generator's period, plus long runs outside the cycle.",
    note="Trusts Go's time package as the calendar reference; assumes the generator has no state beyond (day, month, year).",
